@@ -52,9 +52,9 @@ def binomial(n, k):
     >>> [binomial(4, k) for k in range(3)]
     [1.0, 4.0, 6.0]
     """
-    if n <= k or n == 0:
+    if n < k:
         return 0.
-    elif k == 0:
+    elif k == 0 or k == n:
         return 1.
     return 1./(beta(n-k+1, k+1)*(n+1))
 
